@@ -2,7 +2,7 @@ package sim
 
 import (
 	"context"
-	"fmt"
+	"errors"
 	"io"
 	"net"
 	"os"
@@ -204,13 +204,13 @@ func (k *Kernel) newConn(l *Listener) *Conn {
 // stdio pipes between a bridge client and its subprocess. Kernel goroutine,
 // before Run.
 func (k *Kernel) NewPipePair() *Conn {
-	l := &Listener{Network: "pipe", Address: fmt.Sprintf("stdio%d", len(k.Conns))}
+	l := &Listener{Network: "pipe", Address: Sf("stdio%d", len(k.Conns))}
 	c := k.newConn(l)
 	c.AcceptSeq = 1
 	return c
 }
 
-func (e *Endpoint) name() string { return fmt.Sprintf("c%d.%s", e.conn.ID, e.Side) }
+func (e *Endpoint) name() string { return Sf("c%d.%s", e.conn.ID, e.Side) }
 
 // ---------------------------------------------------------------------------
 // kernel: applying requests
@@ -480,7 +480,7 @@ func (k *Kernel) accept(t *Task, l *Listener) {
 	l.acceptor = t
 	l.AcceptBlocked = true
 	l.AcceptSince = k.step
-	t.blocked = fmt.Sprintf("accept L%d", l.ID)
+	t.blocked = Sf("accept L%d", l.ID)
 	k.armAcceptDeadline(l)
 }
 
@@ -493,7 +493,7 @@ func (k *Kernel) acceptTimeout(t *Task, l *Listener) {
 	k.timeoutTask = t
 	l.Timeouts++
 	l.TimeoutLog = append(l.TimeoutLog, TimeoutRec{k.step, k.Elapsed(), k.openAccepted(l)})
-	k.Fault(fmt.Sprintf("accept_timeout[open=%v]", k.openAccepted(l) > 0))
+	k.Fault(Sf("accept_timeout[open=%v]", k.openAccepted(l) > 0))
 	k.trace("accept L%d timeout open=%d", l.ID, k.openAccepted(l))
 	k.complete(t, result{err: eTimeout})
 }
@@ -504,7 +504,7 @@ func (k *Kernel) armAcceptDeadline(l *Listener) {
 		return
 	}
 	gen := l.dlGen
-	k.At(l.dl, fmt.Sprintf("accept-deadline L%d", l.ID), func() {
+	k.At(l.dl, Sf("accept-deadline L%d", l.ID), func() {
 		if l.dlGen != gen || l.acceptor == nil || l.Closed {
 			return
 		}
@@ -791,7 +791,7 @@ func (k *Kernel) pushBytes(e *Endpoint, p *pipe, b []byte) int {
 		}
 		p.lastAt = at
 		k.Count("segments")
-		k.At(at, fmt.Sprintf("deliver c%d.%d %dB", p.conn.ID, p.dir, sz), func() { k.deliver(p, seg) })
+		k.At(at, Sf("deliver c%d.%d %dB", p.conn.ID, p.dir, sz), func() { k.deliver(p, seg) })
 	}
 	if nseg > 1 {
 		k.Count("writes_split")
@@ -1085,7 +1085,7 @@ func (k *Kernel) await(t *Task, c Cond) {
 		k.complete(t, result{})
 		return
 	}
-	t.blocked = fmt.Sprintf("await %d %s %s %d", c.Kind, c.S1, c.S2, c.N)
+	t.blocked = Sf("await %d %s %s %d", c.Kind, c.S1, c.S2, c.N)
 	k.awaiting = append(k.awaiting, awaiter{t, c})
 }
 
@@ -1131,7 +1131,7 @@ func mkerr(op string, e errno) error {
 	case eAddrInUse:
 		return &net.OpError{Op: op, Net: "sim", Err: os.NewSyscallError("bind", syscall.EADDRINUSE)}
 	}
-	return fmt.Errorf("sim: errno %d", e)
+	return errors.New(Sf("sim: errno %d", int(e)))
 }
 
 func mustSelf() *Task {
